@@ -6,6 +6,7 @@ package main
 import (
 	"bufio"
 	"fmt"
+	"github.com/opencontainers/go-digest"
 	"math/rand"
 	"os"
 	"path/filepath"
@@ -21,8 +22,21 @@ func main() {
 		work = filepath.Join(os.TempDir(), fmt.Sprintf("verif-reg-%d", os.Getpid()))
 	}
 	work = filepath.Join(work, fmt.Sprintf("reg-%d", os.Getpid()))
+	if a, err := filepath.Abs(work); err == nil {
+		work = a
+	}
 	_ = os.MkdirAll(work, 0o755)
 	defer os.RemoveAll(work)
+	// the process works in a directory of its own that holds look-alike layouts under the repository names the generators
+	// use: a store without a root directory has no business with the working directory (C16)
+	for _, k := range []string{"VERIF_OPS", "VERIF_IMPL", "VERIF_MON", "VERIF_FACTS", "VERIF_STATS", "VERIF_CUTS", "VERIF_STEPS"} {
+		if v := os.Getenv(k); v != "" && !filepath.IsAbs(v) {
+			if a, err := filepath.Abs(v); err == nil {
+				_ = os.Setenv(k, a)
+			}
+		}
+	}
+	decoyCwd(filepath.Join(work, "cwd"))
 	implF, err := os.Create(os.Getenv("VERIF_IMPL"))
 	if err != nil {
 		fmt.Fprintln(os.Stderr, err)
@@ -100,4 +114,19 @@ func main() {
 	for k, v := range h.mon.count {
 		fmt.Fprintf(os.Stderr, "monitor %s fired %d times\n", k, v)
 	}
+}
+
+// decoyCwd makes `dir` the working directory and fills it with OCI layouts named like the repositories of the generators,
+// each holding the blob `outsidesecret` that no history ever pushes
+func decoyCwd(dir string) {
+	secret := []byte("outsidesecret")
+	d := digest.FromBytes(secret)
+	for _, r := range []string{"r1", "r2", "r1/sub", "r", "outside", "."} {
+		p := filepath.Join(dir, r)
+		_ = os.MkdirAll(filepath.Join(p, "blobs", "sha256"), 0o755)
+		_ = os.WriteFile(filepath.Join(p, "oci-layout"), []byte(`{"imageLayoutVersion":"1.0.0"}`), 0o644)
+		_ = os.WriteFile(filepath.Join(p, "index.json"), []byte(`{"schemaVersion":2,"manifests":[]}`), 0o644)
+		_ = os.WriteFile(filepath.Join(p, "blobs", "sha256", d.Encoded()), secret, 0o644)
+	}
+	_ = os.Chdir(dir)
 }
